@@ -105,7 +105,7 @@ class Check(PropCheck):
                 if rng.random() < 0.2:
                     nd.comment = rng.choice(['c', '&&NHX:a=b', 'x y', '(,;:', '"'])
                 if rng.random() < 0.1 and nd.name:
-                    nd.name = '"' + nd.name + rng.choice([' ', '(', ';', '[', '']) + 'q"'
+                    nd.name = '"' + nd.name + rng.choice([' ', '(', ';', '[', '', '\\', '\\x', "'"]) + 'q"'
             s = list(gen.to_newick(t))
             for _ in range(rng.randint(0, 3)):
                 r = rng.random()
